@@ -58,7 +58,7 @@ def check(r):
             "expected": sorted((x["schedule_id"], x["recurring"], sorted(d.name for d in x["days"]), x["start_time"], x["end_time"], x["duration"]) for x in exp)}
 
 
-def gen(rnd, k=None):
+def gen(rnd, k=None, wide=False):
     if k is None:
         k = rnd.choice([0, 1, 2, 3, 8, rnd.randrange(0, 10)])
     body = bytearray()
@@ -67,7 +67,12 @@ def gen(rnd, k=None):
         q[0] = rnd.choice([j % 256, rnd.randrange(8), rnd.randrange(256)])
         q[2] = rnd.choice([0, 2, 254, rnd.randrange(2, 255)])
         for off in (4, 8):
-            q[off:off + 4] = rnd.choice([0, 1700000000, rnd.randrange(2 ** 31)]).to_bytes(4, "little")
+            if wide:
+                # the whole 32-bit range, top bit set included (dates after January 2038)
+                stamp = rnd.choice([0, 0x7FFFFFFF, 0x80000000, 0xFFFFFFFF, rnd.randrange(2 ** 31, 2 ** 32), rnd.randrange(2 ** 32)])
+            else:
+                stamp = rnd.choice([0, 1700000000, rnd.randrange(2 ** 31)])
+            q[off:off + 4] = stamp.to_bytes(4, "little")
         body += q
     return bytes(rnd.randrange(256) for _ in range(45)) + bytes(body) + bytes(rnd.randrange(256) for _ in range(4))
 
@@ -91,8 +96,9 @@ def run_case(c):
         # own random stream, so that the draws above do not move
         rnd2 = random.Random(i["seed"] * 7919 + 10)
         longs = [60, 61, 62, 63, 64, 65, 66, 100, 128, 255, 256, 257, 300] + [rnd2.randrange(62, 400) for _ in range(max(3, i["n"] // 100))]
+        longs = [1, 2, 3, 5, 8] * 4 + longs
         for n, k2 in enumerate(longs):
-            r = gen(rnd2, k2)
+            r = gen(rnd2, k2, wide=True)
             res = check(r)
             if not res["ok"]:
                 res.update(evaluations=i["n"] + n + 1, case={"prop": "C10", "kind": "check", "inputs": {"r": canon(r)}})
